@@ -74,14 +74,15 @@ def suite_extract(ctx):
     bad = []
     nv0 = len(ctx.violations)
     for t in range(n):
-        grid = gen_grid(emg3d, rng)
+        grid = gen_grid(emg3d, rng, nz=6 if t % 10 == 3 else None)
         shp = grid.shape_cells
         m = MAPS[t % 6]
         mp = getattr(emg3d.maps, 'Map'+m)()
         lateral = t % 3 != 0         # laterally invariant in 2 of 3 cases
         vti = t % 2 == 0
         special = t % 10 == 7        # changes that cancel in a signed sum
-        if special:
+        partial = t % 10 == 3 and shp[2] > 4   # one property changes alone
+        if special or partial:
             vti, lateral = True, True
         layers = {}
         for d in (['x', 'z'] if vti else ['x']):
@@ -97,6 +98,13 @@ def suite_extract(ctx):
             sz = np.r_[5.0, 4.0, 4.0, rng.uniform(1, 4, shp[2]-3)]
             layers = {'x': np.asarray(mp.backward(sx), float),
                       'z': np.asarray(mp.backward(sz), float)}
+        if partial:
+            # interface 0|1: only z changes, 1|2: only x changes, 2|3: neither
+            lx, lz = layers['x'].copy(), layers['z'].copy()
+            lx[1] = lx[0]
+            lz[2] = lz[1]
+            lx[3], lz[3] = lx[2], lz[2]
+            layers = {'x': lx, 'z': lz}
         sig = {}
         for d, lay in layers.items():
             s = np.ones(shp)*lay[None, None, :]
@@ -121,7 +129,7 @@ def suite_extract(ctx):
             p1 = p0
         method = ['midpoint', 'prism', 'cylinder'][t % 3]
         ell = gen_ellipse(rng, grid)
-        merge = bool(t % 2) or special
+        merge = bool(t % 2) or special or partial
         kw = {'method': method, 'p0': p0, 'p1': p1, 'merge': merge,
               'return_imat': True}
         if method != 'midpoint':
@@ -156,6 +164,17 @@ def suite_extract(ctx):
             # midpoint (or empty selection): one cell
             if np.count_nonzero(imat) != 1 or imat.max() != 1.0:
                 bad.append(('midpoint matrix', tag))
+                # the property itself on this case: weights >= 0, sum 1
+                if not (np.all(np.isfinite(imat)) and np.all(imat >= 0) and
+                        abs(float(np.sum(imat)) - 1.0) <= 1e-12):
+                    ctx.violation(
+                        'extraction-weights-not-convex',
+                        f'extract_1d {tag} (selection falls back to the '
+                        f'midpoint cell): weights min {np.min(imat)!r}, sum '
+                        f'{np.sum(imat)!r}; expected non-negative weights '
+                        f'that sum to one',
+                        {'tag': repr(tag), 'p0': list(p0), 'p1': list(p1),
+                         'ellipse': repr(kw.get('ellipse'))})
             else:
                 i, j = np.argwhere(imat == 1.0)[0]
                 cx, cy = (p0[0]+p1[0])/2, (p0[1]+p1[1])/2
@@ -298,7 +317,10 @@ def make_world(emg3d, rng, vti, mapping, nz=None):
     srcs = {'Tx-2': emg3d.TxElectricDipole((cx-40, cy+10, zs, 30., 10.)),
             'Tx-1': emg3d.TxMagneticPoint((cx+25, cy-15, zs+5, 0., 90.)),
             'Tx-3': emg3d.TxElectricPoint((cx, cy, zs-10, 45., 0.),
-                                          strength=2.0)}
+                                          strength=2.0),
+            # a finite-length dipole given by its two electrodes
+            'Tx-4': emg3d.TxElectricDipole((cx-60, cx+40, cy-10, cy+30, zs,
+                                            zs+10), strength=1.5)}
     recs = {'Rx-b': emg3d.RxElectricPoint((cx+310, cy+60, zs+20, 0., 0.)),
             'Rx-a': emg3d.RxMagneticPoint((cx-240, cy-180, zs-30, 45., 10.)),
             'Rx-c': emg3d.RxElectricPoint((cx+150, cy-260, zs, 90., -20.))}
